@@ -477,6 +477,9 @@ def _shim(fi):
 
 
 def run(ctx):
+    from ..lints import check_stale_loop_variables
+
+    check_stale_loop_variables(ctx, "C14-D6 loop-variables", ['api.circuit_runner', 'api.wavefunction_simulator', 'runners.trackers', 'runners.symbolic_simulator', 'circuits._itertools'])
     repo = ctx.repo
     classes = runner_classes(repo)
     ctx.extra["runner_classes"] = [c.key for c in classes]
